@@ -2,6 +2,8 @@
 
 package websocket
 
+import "reflect"
+
 // Exported wrappers around unexported pure functions, compiled only with -tags verif.
 // Used by the correspondence harness under /verif; never part of a normal build.
 
@@ -28,3 +30,34 @@ func VerifCopts(c *Conn) string {
 
 // VerifFlateThreshold exposes the effective compression threshold of a connection.
 func VerifFlateThreshold(c *Conn) int { return c.flateThreshold }
+
+// VerifWindow drives one slidingWindow (compress.go) the way msgReader does: a new
+// slidingWindow value per incarnation, init on every compressed message, close on release.
+// All windows of the process share swPool.
+type VerifWindow struct{ sw *slidingWindow }
+
+// VerifWindowNew is msgReader.resetFlate's `mr.dict = &slidingWindow{}`.
+func VerifWindowNew() *VerifWindow { return &VerifWindow{sw: &slidingWindow{}} }
+
+// Init is dict.init(n).
+func (w *VerifWindow) Init(n int) { w.sw.init(n) }
+
+// Write is dict.write(p).
+func (w *VerifWindow) Write(p []byte) { w.sw.write(p) }
+
+// Put is dict.close().
+func (w *VerifWindow) Put() { w.sw.close() }
+
+// Dict returns a copy of what is handed to the inflater as its dictionary (sw.buf).
+func (w *VerifWindow) Dict() []byte { return append([]byte(nil), w.sw.buf...) }
+
+// Array returns a copy of the whole backing array of the window.
+func (w *VerifWindow) Array() []byte { return append([]byte(nil), w.sw.buf[:cap(w.sw.buf)]...) }
+
+// ArrayID identifies the backing array (the address of its first cell).
+func (w *VerifWindow) ArrayID() uintptr {
+	if cap(w.sw.buf) == 0 {
+		return 0
+	}
+	return reflect.ValueOf(w.sw.buf[:1]).Pointer()
+}
